@@ -46,6 +46,8 @@ def gen_history(draw):
         if k == "create":
             stp = {"k": "create", "kind": draw(st.sampled_from(CREATE_KINDS)), "who": who,
                    "names": draw(st.sampled_from([0, 0, 1, 1, 2, 3]))}
+            if draw(st.integers(0, 3)) == 0:
+                stp["pol"] = "open"         # a shared object: anyone may do anything to it
             if dead and draw(st.integers(0, 4)) == 0:
                 # a creating request whose template names an identifier of the client's choosing
                 # (a dead one, a live one, or a never-used one): it may be refused, but if it
@@ -60,7 +62,13 @@ def gen_history(draw):
                                                          "then-probe", "then-probe", "read-then-probe",
                                                          "wrap-then-probe", "wrap-then-probe"])),
                           "paged": draw(st.booleans()),
-                          "alias": draw(st.sampled_from([None, None, "0%s", " %s", "%s.0", "+%s"]))})
+                          "alias": draw(st.sampled_from([None, None, "0%s", " %s", "%s.0", "+%s"])),
+                          # the life the object had before: still Pre-Active, used and retired, or
+                          # compromised (with or without having been active)
+                          "life": draw(st.sampled_from([None, None, "activate-cease", "compromise",
+                                                        "activate-compromise"])),
+                          # who destroys it: the owner, or (shared objects only) somebody else
+                          "by": draw(st.sampled_from(["owner", "owner", "other"]))})
             live -= 1
             dead += 1
             if draw(st.booleans()):
@@ -86,6 +94,15 @@ def gen_history(draw):
                           "who": who})
     steps.append({"k": "probe-all"})
     return {"steps": steps}
+
+
+def _policies():
+    """Built-in policies plus 'open': every operation on every object type allowed to everyone."""
+    from kmip.core import enums
+    p = H.builtin_policies()
+    p["open"] = {"preset": {H.OT[t]: {o: enums.Policy.ALLOW_ALL for o in enums.Operation}
+                            for t in H.OBJECT_TYPES}}
+    return p
 
 
 def _create_item(kind, live, who=None):
@@ -117,7 +134,7 @@ def _probe_item(op, uid):
 class Run(object):
     def __init__(self):
         H.CLOCK.now = 1_700_002_000
-        self.srv = H.Server()
+        self.srv = H.Server(policies=_policies())
         self.ever = set()
         self.live = []       # {uid, owner, otype, derivable}
         self.dead = []
@@ -156,6 +173,8 @@ class Run(object):
             if pool:
                 chosen = pool[step.get("n", 0) % len(pool)]
                 extra.append(["Unique Identifier", chosen])
+        if step.get("pol"):
+            extra.append(["Operation Policy Name", step["pol"]])
         if extra:
             key = "common" if item["op"] == "CreateKeyPair" else "attrs"
             item = dict(item)
@@ -176,7 +195,7 @@ class Run(object):
         uids = hist.created_uids([r])
         self.note_new(uids, step["who"], item)
         for u in uids:
-            self.live.append({"uid": u, "owner": step["who"],
+            self.live.append({"uid": u, "owner": step["who"], "pol": step.get("pol"),
                               "otype": "SymmetricKey" if item["op"] in ("Create", "DeriveKey") or step["kind"] == "Register-SymmetricKey" else step["kind"],
                               "derivable": True})
 
@@ -195,9 +214,21 @@ class Run(object):
             return
         newest = o is max(self.live, key=lambda x: int(x["uid"]))
         others_before = self.others_snapshot(o["uid"])
-        cli = H.Client(self.srv, o["owner"])
+        who = o["owner"]
+        if step.get("by") == "other" and o.get("pol") == "open":
+            who = next(u for u in USERS if u != o["owner"])
+            self.classes.append("destroy-by-non-owner")
+        cli = H.Client(self.srv, who)
         mode = step.get("batch")
         d = {"op": "Destroy", "uid": o["uid"]}
+        life = step.get("life")
+        if life and mode != "wrap-then-probe":
+            own = H.Client(self.srv, o["owner"])
+            if life.startswith("activate"):
+                own.one({"op": "Activate", "uid": o["uid"]})
+            own.one({"op": "Revoke", "uid": o["uid"],
+                     "code": "KEY_COMPROMISE" if life.endswith("compromise") else "CESSATION_OF_OPERATION"})
+            self.classes.append("destroy-after-life:" + life)
         alias = step["alias"] % o["uid"] if step.get("alias") and o["uid"].isdigit() else None
         if step.get("paged"):
             # the owner pages through Locate before the Destroy ...
